@@ -25,7 +25,7 @@ OUT = os.path.join(VERIF, "out")
 JAR = "/opt/veriftools/tla/tla2tools.jar:/opt/veriftools/tla/CommunityModules-deps.jar"
 GUARD = "FASTSCAPELIB_VERIF_HOOKS"
 NCPU = min(16, os.cpu_count() or 4)
-ALL_CHECKS = ["C01", "C02", "C03", "C04", "C05", "C06", "C09", "C10", "C12", "C13", "C15", "C16",
+ALL_CHECKS = ["C01", "C02", "C03", "C04", "C05", "C06", "C07", "C09", "C10", "C12", "C13", "C14", "C15", "C16", "C18",
               "C17", "C19", "C20"]
 
 
